@@ -1006,8 +1006,18 @@ struct Harness
                     ++fault_runs;
                     fault_requests += requests;
                     shim::arm(k, from != 0);
+                    unreportable = false;
                     bool reported = call_expect_failure(L, o, ck);
                     shim::disarm();
+                    if (unreportable)
+                    {
+                        if (ck.ok()) { check_state(L, ck); }
+                        if (ck.ok()) { destroy(L, ck); }
+                        out.leave();
+                        if (!ck.ok()) { out.viol(tag, std::string(CNAME "|") + op_names[o.code] + "|oom|" + ck.cls, std::string("allocation request #") + std::to_string(k) + (from ? " and all later ones fail" : " fails") + " during " + op_str(o) + " on " + key_str(key) + " (the operation cannot report a failure): " + ck.err); continue; }
+                        out.succ(tag, key, "oom", op_names[o.code]);
+                        continue;
+                    }
                     std::string why = std::string("allocation request #") + std::to_string(k) + (from ? " and all later ones fail" : " fails") + " during " + op_str(o) + " on " + key_str(key) + ": ";
                     if (ck.ok() && !reported) { ck.fail("failure-not-reported", "the operation did not report the failure through its return value"); }
                     if (ck.ok())
@@ -1055,9 +1065,19 @@ struct Harness
 #else
         case OP_SETM: return a_buf_setm(c, (a_size)o.a) == nullptr;
 #endif
+        default:
+        {
+            // an operation that has no way to report a failure (or is not expected to request memory at all) made a request: it is
+            // executed like any call; the container must come out valid, and destroying it must release every block
+            std::string oc;
+            unreportable = true;
+            apply(L, o, ck, oc);
+            return true;
+        }
         }
         return true;
     }
+    bool unreportable = false;
 
     // ---------------------------------------------------------------- API-only replay
     bool replay(const std::vector<xs::Op> &path, std::string &key, std::string &err)
@@ -1118,6 +1138,44 @@ int main(int argc, char **argv)
             if (ck.ok() && L.c->siz_ != (s ? s : 1)) { ck.fail("zero-size", "element size " + std::to_string(s) + " became " + std::to_string(L.c->siz_)); }
             if (ck.ok()) { hh.destroy(L, ck); }
             if (!ck.ok()) { vx::viol(std::string(CNAME "|new|siz=") + std::to_string(s) + "|" + ck.cls, std::string(CNAME "_new with element size ") + std::to_string(s) + ": " + ck.err, "{\"job\":" + vx::jstr(h.job) + ",\"ops\":[\"new(siz=" + std::to_string(s) + ")\"]}"); }
+        }
+        // the same sizes through the in-place constructor (the caller owns the header): same element size as the allocating form
+        for (size_t s : {(size_t)0, (size_t)1, (size_t)3, (size_t)16})
+        {
+            vx::mark("in-place constructor and destructor with element size", (uint64_t)s);
+            shim::reset();
+            Ck ck;
+#if defined(SEQ_VEC)
+            a_vec v;
+            memset(&v, 0x5A, sizeof v);
+            a_vec_ctor(&v, s);
+            size_t got = v.siz_;
+            if (got != (s ? s : 1)) { ck.fail("zero-size", "element size " + std::to_string(s) + " became " + std::to_string(got)); }
+            if (ck.ok() && (v.num_ != 0 || v.mem_ != 0 || v.ptr_ != nullptr)) { ck.fail("not-empty", "a constructed vector is not empty"); }
+            if (ck.ok())
+            {
+                unsigned char *e = (unsigned char *)a_vec_push_back(&v);
+                if (!e || v.num_ != 1 || (unsigned char *)v.ptr_ != e) { ck.fail("push", "push_back on the constructed vector did not append an element"); }
+                else { memset(e, 0x11, v.siz_); }
+            }
+            a_vec_dtor(&v, nullptr);
+#else
+            std::vector<unsigned char> raw(sizeof(a_buf) + 16 * 2 + 8, 0x5A);
+            a_buf *b = (a_buf *)raw.data();
+            a_buf_ctor(b, s, 2);
+            size_t got = b->siz_;
+            if (got != (s ? s : 1)) { ck.fail("zero-size", "element size " + std::to_string(s) + " became " + std::to_string(got)); }
+            if (ck.ok() && (b->num_ != 0 || b->mem_ != 2)) { ck.fail("not-empty", "a constructed buffer is not empty with the stated capacity"); }
+            if (ck.ok())
+            {
+                unsigned char *e = (unsigned char *)a_buf_push_back(b);
+                if (!e || b->num_ != 1) { ck.fail("push", "push_back on the constructed buffer did not append an element"); }
+            }
+            a_buf_dtor(b, nullptr);
+#endif
+            if (ck.ok() && !shim::check()) { ck.fail("memory", shim::st().error); }
+            if (ck.ok() && shim::st().live_blocks != 0) { ck.fail("leak", "blocks still live after the destructor"); }
+            if (!ck.ok()) { vx::viol(std::string(CNAME "|ctor|siz=") + std::to_string(s) + "|" + ck.cls, std::string(CNAME "_ctor (in place) with element size ") + std::to_string(s) + ": " + ck.err, "{\"job\":" + vx::jstr(h.job) + ",\"ops\":[\"ctor(siz=" + std::to_string(s) + ")\"]}"); }
         }
         if (h.siz0 == 0)
         {
